@@ -1,4 +1,5 @@
 CONSTANT DIE_PRINTS = FALSE
+CONSTANT TEXT_ONLY_ARGS = FALSE
 SPECIFICATION Spec
 INVARIANTS Inv_Discipline Inv_AstNoInput Inv_Unquoted Inv_Outcome
 CHECK_DEADLOCK FALSE
